@@ -1,5 +1,8 @@
 import Driver.Codec
 import Driver.SearchState
+import TakVerif.Impl.Alloc
+import TakVerif.Impl.Book
+import TakVerif.Impl.Bot
 namespace Driver
 open Tak
 
@@ -7,7 +10,14 @@ open Tak
 structure St where
   basis : Array W := Array.replicate 64 0#64
   search : SearchSess := {}
-deriving Inhabited
+  -- C09 session: heap-side and pure-side interpreter states (`Tak.HState.step` / `Tak.PState.step`, the very
+  -- functions `C09.heap_refines_pure` is about) and the harness' slot -> handle table
+  hs : Tak.HState := {}
+  ps : Tak.PState := #[]
+  slots : Array (Option Nat) := Array.replicate 16 none
+  -- C04 (opening book) session: the book built by the last `book`/`realbook` op
+  symBook : Option Tak.Book := none
+  bot : Option Tak.Bot.Session := none      -- C07: the bot game of the current `case`
 
 /-- a handler returns `none` when the op is not its own -/
 abbrev Handler := St → String → List String → Option (St × String)
